@@ -310,9 +310,15 @@ func sortExtractor(args []string) []int {
 			if i+1 >= len(args) {
 				return nil
 			}
-			// The STORE destination is also a key accessed by the command.
-			keys = append(keys, i+1)
-			hasStore = true
+			// The STORE destination is also a key accessed by the command. When STORE is
+			// repeated Redis writes only the LAST destination (sortGetKeys): an overridden
+			// destination is not a key of the command.
+			if hasStore {
+				keys[len(keys)-1] = i + 1
+			} else {
+				keys = append(keys, i+1)
+				hasStore = true
+			}
 			i++
 		case strings.EqualFold(args[i], "by"):
 			if i+1 >= len(args) {
